@@ -1,7 +1,7 @@
 /-
   C19 (vector-engine failures surface), everything that does not depend on defect D6 being
-  fixed.  The instance theorem on the real `Gen.Facts.errFacts` lives in
-  ZapProofs/Props/C19.lean.
+  fixed (written while D6 was still present; D6 has since been fixed in /repo).  The instance
+  theorem on the real `Gen.Facts.errFacts` lives in ZapProofs/Props/C19.lean.
 
   PROVED HERE
   * `engine_fault_surfaces_build` / `engine_fault_surfaces_merge`: for ANY fact list `fs`
@@ -10,8 +10,9 @@
     engine call (or write) fails: the outermost call (`New` resp. `Merge`) returns an error;
     for merges the file is removed.  (Instances of `Persist.fault_any_position`.)
   * `c19SideCondition c19Expected = true` where `c19Expected` is the current fact list with the
-    single entry (`faissVectorIndexSection.Persist`, `vo.writeVectorIndexes`) changed from
-    `ignored` to `returned` - i.e. what the extractor must produce once D6 is fixed.
+    single entry (`faissVectorIndexSection.Persist`, `vo.writeVectorIndexes`) forced to
+    `returned` - i.e. what the extractor had to produce once D6 was fixed (it now does:
+    `C19.facts_eq_expected`).
 
   `c19SideCondition fs` says
   * no UNRECOGNISED entry;
